@@ -31,3 +31,8 @@ add('C02', 'model_checking',
     'The three decode tables are built by executing the real GetDecodeTable<V>() inside the symbolic executor; on them SMT decides: the real Matcher::Matches IR equals the mask/expected/rejector predicate of each of the 443 rows, at most one row matches any 16-bit word, the real Decode<Interpreter>(o) returns row i for every o in row i with its uniqueness ASSERT unreachable, the Disassembler and TestGenerator tables are row-for-row identical to the interpreter table, Interpreter::Run reads exactly 1+expanded program words and hands pmem[pc+1] to the handler (never fetching it as an instruction), and flipping an Unused<k> bit changes neither matching nor registers/memory/exit class of the instruction.',
     'Quick tier runs Decode<> on rows with EXCEPT clauses plus a seeded sample (thorough: all rows). Run scaffold assumes prpage==0, rep==0, pc<0x3FFFE. Unused<k> positions are read from decoder.h text. Not decided: the assembler (parser.cpp) seeing the same form. Table extraction validated each run against the natively compiled table on all 65536 opcodes.',
     'symbolic execution of LLVM IR of the real decoder + SMT (16-bit opcode fully symbolic)', 'DESIGN.md section 2 C02')
+
+add('C20', 'model_checking',
+    'RegisterState::Get<W>/Set<W> of all 19 pseudo registers (the real PseudoRegister/ProxySlot template code) are executed symbolically from an arbitrary well-formed state with a symbolic 16-bit value; SMT decides per word: read-back on writable slots, read-only slots unchanged (with the documented write-1-to-clear loop flag, doubled limit flag and 4-bit accumulator extension), each slot reads/writes exactly its field at its bit position, reserved bits read 0, no field outside the word changes, Inv preserved, and after any Set<W1> every field shared with another word W2 reads the same through both. The annotated disassembler\'s ar/arp decoding (integers handed to std::to_string / ConvertArStepAndOffset) is proved equal to the interpreter fields after Set<ar/arp> of the same words.',
+    'Layout oracle is the transcribed table spec/pseudo_regs.py. Disassembler name strings are data and not checked; the test generator\'s ar/arp pinning is examined in C01 (generator clause). Assumes Inv on the pre-state.',
+    'symbolic execution of LLVM IR + SMT: table-driven bit-field specification', 'DESIGN.md section 2 C20')
